@@ -1,59 +1,95 @@
-(* C04: the theorems of Properties/C04.v, assembled from SortLemmas / Settle / Refute. *)
+(* C04: the theorems of Properties/C04.v, assembled from SortLemmas / Acyclic / Settle / Chain / Refute. *)
 From V Require Import Base.PyInt Gen.WireOps Model.SimKernel Model.Sort Spec.C04.
 From V Require Import Proofs.C04.SortLemmas Proofs.C04.Settle Proofs.C04.Refute Proofs.C04.Chain Proofs.C04.Acyclic.
 From Coq Require Import Permutation.
 Local Open Scope nat_scope.
 
 Lemma sort_sound_thm : forall succ K l l',
-  NoDup l -> closed succ l -> sort_fuel succ K l = Some l' ->
-  Permutation l l' /\ topo succ l' /\ ((forall x, In x l -> ~ self_loop succ x) -> strict_topo succ l').
+  NoDup l -> closed succ l -> sort_fuel succ K l = Sorted l' ->
+  Permutation l l' /\ strict_topo succ l'.
 Proof.
-  intros succ K l l' Hnd _ H. destruct (sort_fuel_sound succ K l l' Hnd H) as [P T].
-  split; [exact P|]. split; [exact T|]. intros Hs. apply topo_strict; auto.
-  - eapply Permutation_NoDup; eauto.
-  - intros x Hx. apply Hs. eapply Permutation_in; [apply Permutation_sym, P|exact Hx].
+  intros succ K l l' Hnd _ H. exact (sort_fuel_sound succ K l l' Hnd H).
 Qed.
 
 Lemma sort_terminates_thm : forall succ d l,
-  closed succ l -> ranking succ l d ->
-  exists K0, forall l0, Permutation l l0 -> forall K, K0 <= K -> exists l', sort_fuel succ K l0 = Some l'.
+  NoDup l -> closed succ l -> ranking succ l d ->
+  exists K0, forall l0, Permutation l l0 -> forall K, K0 <= K -> exists l', sort_fuel succ K l0 = Sorted l'.
 Proof.
-  intros succ d l Hc Hr. exists (S (length l * sumd d l)). intros l0 P K HK.
-  exact (sort_fuel_terminates succ d l Hc Hr l0 P K HK).
+  intros succ d l Hnd Hc Hr. exists (S (length l * sumd d l)). intros l0 P K HK.
+  exact (sort_fuel_terminates succ d l Hnd Hc Hr l0 P K HK).
 Qed.
 
 Lemma acyclic_iff_ranking_thm : forall succ l, closed succ l ->
   ((forall v, In v l -> ~ path succ v v) <-> exists d, ranking succ l d).
-Proof. exact acyclic_iff_ranking. Qed.
+Proof.
+  exact acyclic_iff_ranking.
+Qed.
 
 Lemma sort_terminates_acyclic_thm : forall succ l,
-  closed succ l -> (forall v, In v l -> ~ path succ v v) ->
-  exists K0, forall l0, Permutation l l0 -> forall K, K0 <= K -> exists l', sort_fuel succ K l0 = Some l'.
-Proof. exact sort_terminates_acyclic. Qed.
+  NoDup l -> closed succ l -> (forall v, In v l -> ~ path succ v v) ->
+  exists K0, forall l0, Permutation l l0 -> forall K, K0 <= K -> exists l', sort_fuel succ K l0 = Sorted l'.
+Proof.
+  exact sort_terminates_acyclic.
+Qed.
 
 Lemma swap_increases_measure_thm : forall succ d l i p,
   closed succ l -> ranking succ l d -> i < length l ->
   first_dep succ l (nth i l 0) = Some p -> p < i -> Msum d 0 l < Msum d 0 (swap l p i).
-Proof. exact step_increases. Qed.
+Proof.
+  exact step_increases.
+Qed.
 
-Lemma cycle_rejected_thm : forall succ K l,
-  NoDup l -> closed succ l -> has_cycle2 succ l -> sort_fuel succ K l = None.
-Proof. exact sort_fuel_cycle. Qed.
+Lemma cyclic_rejected_thm : forall succ K l l',
+  NoDup l -> closed succ l -> (exists v, In v l /\ path succ v v) -> sort_fuel succ K l <> Sorted l'.
+Proof.
+  intros succ K l l' Hnd Hc Hcy. exact (sort_fuel_cyclic succ K l l' Hnd Hc Hcy).
+Qed.
+
+Lemma cycle_rejected_thm : forall succ K l l',
+  NoDup l -> closed succ l -> has_cycle2 succ l -> sort_fuel succ K l <> Sorted l'.
+Proof.
+  intros succ K l l' Hnd Hc Hcy. apply sort_fuel_cyclic; auto. now apply has_cycle2_cyclic.
+Qed.
+
+Lemma selfloop_rejected_thm : forall succ K l l' x,
+  NoDup l -> closed succ l -> In x l -> self_loop succ x -> sort_fuel succ K l <> Sorted l'.
+Proof.
+  intros succ K l l' x Hnd Hc Hx Hs. apply sort_fuel_cyclic; auto. exists x. split; [exact Hx|]. apply path_edge. exact Hs.
+Qed.
+
+Lemma loop_error_sound_thm : forall succ K l x,
+  NoDup l -> closed succ l -> sort_fuel succ K l = LoopError x -> In x l /\ self_loop succ x.
+Proof.
+  intros succ K l x Hnd Hc H. exact (sort_fuel_loop succ K l x Hnd Hc H).
+Qed.
+
+Lemma cycle2_limit_error_thm : forall succ K l,
+  NoDup l -> closed succ l -> has_cycle2 succ l -> (forall x, In x l -> ~ self_loop succ x) ->
+  sort_fuel succ K l = LimitError.
+Proof.
+  exact sort_fuel_cycle2_limit.
+Qed.
 
 Lemma settle_fixpoint_thm : forall (St : Type) (d : design St) (vs : list Z),
   ordered (combs d) -> single_driver (combs d) -> settled d (propagateAll d vs).
-Proof. intros St d vs Ho Hs. exact (propagateAll_settled d vs Ho Hs). Qed.
+Proof.
+  intros St d vs Ho Hs. exact (propagateAll_settled d vs Ho Hs).
+Qed.
 
 Lemma settled_after_init_and_clk_thm : forall (St : Type) (d : design St) (st0 : list St) (s : state St) (n : nat),
   ordered (combs d) -> single_driver (combs d) ->
   settled d (vals (init d st0)) /\ settled d (vals (clk d n s)).
-Proof. intros St d st0 s n Ho Hs. split; [exact (init_settled d st0 Ho Hs) | exact (clk_settled d n s Ho Hs)]. Qed.
+Proof.
+  intros St d st0 s n Ho Hs. split; [exact (init_settled d st0 Ho Hs) | exact (clk_settled d n s Ho Hs)].
+Qed.
 
 Lemma fixpoint_unique_thm : forall (St : Type) (d : design St) (vs1 vs2 : list Z),
   ordered (combs d) -> (forall c, In c (combs d) -> definite c) ->
   settled d vs1 -> settled d vs2 -> length vs1 = length vs2 ->
   (forall w, ~ driven (combs d) w -> nth w vs1 0%Z = nth w vs2 0%Z) -> vs1 = vs2.
-Proof. intros St d vs1 vs2 Ho Hd H1 H2 Hl Hu. exact (settled_unique d (combs d) vs1 vs2 Ho Hd H1 H2 Hl Hu). Qed.
+Proof.
+  intros St d vs1 vs2 Ho Hd H1 H2 Hl Hu. exact (settled_unique d (combs d) vs1 vs2 Ho Hd H1 H2 Hl Hu).
+Qed.
 
 Lemma order_independent_thm : forall (St : Type) (d1 d2 : design St) (vs : list Z),
   same_netlist d1 d2 -> ordered (combs d1) -> ordered (combs d2) ->
@@ -65,19 +101,17 @@ Proof.
 Qed.
 
 Lemma sorted_netlist_settles_thm : forall (St : Type) (d : design St) succ K l (vs : list Z),
-  represents (combs d) succ -> (forall i, ~ self_loop succ i) -> single_driver (combs d) ->
+  represents (combs d) succ -> single_driver (combs d) ->
   closed succ (seq 0 (length (combs d))) ->
-  sort_fuel succ K (seq 0 (length (combs d))) = Some l ->
+  sort_fuel succ K (seq 0 (length (combs d))) = Sorted l ->
   let d' := with_combs d (reorder (combs d) l) in
   same_netlist d d' /\ ordered (combs d') /\ settled d' (propagateAll d' vs).
 Proof.
-  intros St d succ K l vs Hrep Hns Hsd _ H d'.
+  intros St d succ K l vs Hrep Hsd _ H d'.
   destruct (sort_fuel_sound succ K _ l (seq_NoDup _ _) H) as [P T].
   assert (Hv : forall i, In i l -> i < length (combs d)).
   { intros i Hi. apply (Permutation_in _ (Permutation_sym P)) in Hi. apply in_seq in Hi. lia. }
-  assert (Hnd : NoDup l) by (eapply Permutation_NoDup; [exact P|apply seq_NoDup]).
-  assert (Ho : ordered (reorder (combs d) l)).
-  { apply (reorder_ordered (combs d) succ l Hrep Hv). apply topo_strict; auto. intros x _. apply Hns. }
+  assert (Ho : ordered (reorder (combs d) l)) by (exact (reorder_ordered (combs d) succ l Hrep Hv T)).
   assert (Pc : Permutation (combs d) (reorder (combs d) l)) by (apply reorder_perm; exact P).
   split; [split; [reflexivity|exact Pc]|]. split; [exact Ho|].
   apply propagateAll_settled; [exact Ho|]. eapply single_driver_perm; eauto.
@@ -86,12 +120,11 @@ Qed.
 Lemma construction_order_independent_thm : forall (St : Type) (d1 d2 : design St) succ1 succ2 K l1 l2 (vs : list Z),
   same_netlist d1 d2 -> single_driver (combs d1) -> (forall c, In c (combs d1) -> definite c) ->
   represents (combs d1) succ1 -> represents (combs d2) succ2 ->
-  (forall i, ~ self_loop succ1 i) -> (forall i, ~ self_loop succ2 i) ->
-  sort_fuel succ1 K (seq 0 (length (combs d1))) = Some l1 ->
-  sort_fuel succ2 K (seq 0 (length (combs d2))) = Some l2 ->
+  sort_fuel succ1 K (seq 0 (length (combs d1))) = Sorted l1 ->
+  sort_fuel succ2 K (seq 0 (length (combs d2))) = Sorted l2 ->
   propagateAll (with_combs d1 (reorder (combs d1) l1)) vs = propagateAll (with_combs d2 (reorder (combs d2) l2)) vs.
 Proof.
-  intros St d1 d2 succ1 succ2 K l1 l2 vs [Hw P] Hsd Hdef R1 R2 N1 N2 S1 S2.
+  intros St d1 d2 succ1 succ2 K l1 l2 vs [Hw P] Hsd Hdef R1 R2 S1 S2.
   assert (Hsd2 : single_driver (combs d2)) by (eapply single_driver_perm; eauto).
   destruct (sort_fuel_sound succ1 K _ l1 (seq_NoDup _ _) S1) as [P1 T1].
   destruct (sort_fuel_sound succ2 K _ l2 (seq_NoDup _ _) S2) as [P2 T2].
@@ -99,12 +132,8 @@ Proof.
   { intros i Hi. apply (Permutation_in _ (Permutation_sym P1)) in Hi. apply in_seq in Hi. lia. }
   assert (Hv2 : forall i, In i l2 -> i < length (combs d2)).
   { intros i Hi. apply (Permutation_in _ (Permutation_sym P2)) in Hi. apply in_seq in Hi. lia. }
-  assert (Hn1 : NoDup l1) by (eapply Permutation_NoDup; [exact P1|apply seq_NoDup]).
-  assert (Hn2 : NoDup l2) by (eapply Permutation_NoDup; [exact P2|apply seq_NoDup]).
-  assert (O1 : ordered (reorder (combs d1) l1)).
-  { apply (reorder_ordered (combs d1) succ1 l1 R1 Hv1). apply topo_strict; auto. intros x _. apply N1. }
-  assert (O2 : ordered (reorder (combs d2) l2)).
-  { apply (reorder_ordered (combs d2) succ2 l2 R2 Hv2). apply topo_strict; auto. intros x _. apply N2. }
+  assert (O1 : ordered (reorder (combs d1) l1)) by (exact (reorder_ordered (combs d1) succ1 l1 R1 Hv1 T1)).
+  assert (O2 : ordered (reorder (combs d2) l2)) by (exact (reorder_ordered (combs d2) succ2 l2 R2 Hv2 T2)).
   assert (Q1 : Permutation (combs d1) (reorder (combs d1) l1)) by (apply reorder_perm; exact P1).
   assert (Q2 : Permutation (combs d2) (reorder (combs d2) l2)) by (apply reorder_perm; exact P2).
   apply order_independent; cbn [combs with_combs]; auto.
@@ -115,33 +144,24 @@ Proof.
   - intros c Hc. apply Hdef. eapply Permutation_in; [apply Permutation_sym, Q1|exact Hc].
 Qed.
 
-Lemma selfloop_refuted_thm : exists succ l x,
-  NoDup l /\ closed succ l /\ In x l /\ self_loop succ x /\ sort_fuel succ py4hw_loop_limit l = Some l.
-Proof.
-  exists selfloop_succ, [0; 1], 0. destruct selfloop_accepted as (H1 & H2 & H3 & H4).
-  repeat split; auto. now left.
-Qed.
-
-Lemma selfloop_not_settled_refuted_thm : exists (d : design unit) (vs : list Z),
-  single_driver (combs d) /\ ~ settled d (propagateAll d vs).
-Proof. exists inv_loop, [0%Z]. exact selfloop_not_settled. Qed.
-
 Lemma limit_refuted_thm : forall K,
   let succ := chain_succ (S K) in let l := rev_chain (S K) in
   NoDup l /\ closed succ l /\ ranking succ l (fun x => x) /\
-  sort_fuel succ K l = None /\ sort_fuel succ (S K) l = Some (seq 0 (S K)).
+  sort_fuel succ K l = LimitError /\ sort_fuel succ (S K) l = Sorted (seq 0 (S K)).
 Proof.
   intros K succ l. destruct (limit_rejects_all K) as [H1 H2].
   repeat split; [apply rev_chain_nodup | apply chain_closed | apply chain_ranking | exact H1 | exact H2].
 Qed.
 
-Lemma pass_count_chain_thm : forall n K, 1 <= n ->
-  sort_fuel (chain_succ n) K (rev_chain n) = if K <? n then None else Some (seq 0 n).
-Proof. exact chain_passes. Qed.
-
-Lemma limit_1000_refuted_thm :
-  let n := S py4hw_loop_limit in
-  ranking (chain_succ n) (rev_chain n) (fun x => x) /\ sort_fuel (chain_succ n) py4hw_loop_limit (rev_chain n) = None.
+Lemma limit_1000_refuted_thm :   let n := S py4hw_loop_limit in
+  ranking (chain_succ n) (rev_chain n) (fun x => x) /\ sort_fuel (chain_succ n) py4hw_loop_limit (rev_chain n) = LimitError.
 Proof.
   intros n. split; [apply chain_ranking|]. exact (proj1 (limit_rejects_all py4hw_loop_limit)).
 Qed.
+
+Lemma pass_count_chain_thm : forall n K, 1 <= n ->
+  sort_fuel (chain_succ n) K (rev_chain n) = if K <? n then LimitError else Sorted (seq 0 n).
+Proof.
+  exact chain_passes.
+Qed.
+
